@@ -62,6 +62,9 @@ def shape_of(grid, extra):
     return (len(grid),) + tuple(len(EXTRA[l]) for l in extra)
 
 
+MADE_PARAMS = []      # the parameter arrays handed to the library since the list was last cleared (see case["touch_params"])
+
+
 def mk_param(dims, pdesc):
     """lifetime parameter: scalar | {"dims":[letters], "values":[flat]} (a FlodymArray over a subset, any order)"""
     import flodym as fd
@@ -72,7 +75,9 @@ def mk_param(dims, pdesc):
     vals = np.array([float(v) for v in pdesc["values"]]).reshape(ds.shape)
     if pdesc.get("dtype") == "int" and np.all(vals == np.round(vals)):
         vals = vals.astype(np.int64)          # whole-number parameters (years) handed over as an integer array
-    return fd.FlodymArray(dims=ds, values=vals)
+    out = fd.FlodymArray(dims=ds, values=vals)
+    MADE_PARAMS.append(out)
+    return out
 
 
 def param_full(case):
@@ -99,6 +104,19 @@ def _scaled(pdesc, f):
 
 
 def mk_lifetime(case, dims):
+    """with case["touch_params"] the parameter arrays handed to the model are overwritten in place by their owner afterwards (before
+    any table is read): the model holds the parameters it was given, not whatever the caller's arrays hold later"""
+    if case.get("touch_params"):
+        del MADE_PARAMS[:]
+        lm = mk_lifetime(dict(case, touch_params=False), dims)
+        for p in MADE_PARAMS:
+            p.values[...] = p.values * 3 + 1
+        del MADE_PARAMS[:]
+        return lm
+    return _mk_lifetime0(case, dims)
+
+
+def _mk_lifetime0(case, dims):
     """the lifetime model of the case; with case["preset"] = f it is first built with all parameters times f, its tables are
     computed, and the case's own parameters are then handed over through set_prms (however close to the first ones they are)"""
     lt = case["lifetime"]
